@@ -107,19 +107,23 @@ impl TrioWorld {
     }
     /// swap offering asset index `i` for asset index `j`
     pub fn swap(&mut self, who: &str, i: usize, j: usize, amount: u128, belief: Option<Decimal>, max_spread: Option<Decimal>) -> Result<AppResponse, String> {
+        self.swap_to(who, i, j, amount, belief, max_spread, None)
+    }
+    /// `to`: the account the proceeds are addressed to (None = the sender)
+    pub fn swap_to(&mut self, who: &str, i: usize, j: usize, amount: u128, belief: Option<Decimal>, max_spread: Option<Decimal>, to: Option<String>) -> Result<AppResponse, String> {
         let ask = self.assets[j].clone();
         let trio_addr = self.trio.clone();
         match self.assets[i].clone() {
             AssetInfo::NativeToken { denom } => {
                 let funds = if amount > 0 { vec![coin(amount, denom.clone())] } else { vec![] };
                 let msg = trio::ExecuteMsg::Swap { offer_asset: Asset { info: self.assets[i].clone(), amount: Uint128::new(amount) },
-                    ask_asset: ask, belief_price: belief, max_spread, to: None };
+                    ask_asset: ask, belief_price: belief, max_spread, to: to.clone() };
                 let app = &mut self.app;
                 guarded(|| app.execute_contract(Addr::unchecked(who), trio_addr, &msg, &funds))
             }
             AssetInfo::Token { contract_addr } => {
                 let msg = Cw20ExecuteMsg::Send { contract: trio_addr.to_string(), amount: Uint128::new(amount),
-                    msg: to_json_binary(&trio::Cw20HookMsg::Swap { ask_asset: ask, belief_price: belief, max_spread, to: None }).unwrap() };
+                    msg: to_json_binary(&trio::Cw20HookMsg::Swap { ask_asset: ask, belief_price: belief, max_spread, to: to.clone() }).unwrap() };
                 let app = &mut self.app;
                 guarded(|| app.execute_contract(Addr::unchecked(who), Addr::unchecked(contract_addr), &msg, &[]))
             }
@@ -161,7 +165,7 @@ impl TrioWorld {
     }
     /// the single-asset forms of the ledger queries (`asset_id: Some(..)`) against the whole-ledger forms
     pub fn ledger_queries_disagree(&self) -> Option<String> {
-        let (pend, burned) = (self.fees_query(false), self.burned_query());
+        let (pend, burned, alltime) = (self.fees_query(false), self.burned_query(), self.fees_query(true));
         for i in 0..3 {
             let id = match &self.assets[i] { AssetInfo::NativeToken { denom } => denom.clone(), AssetInfo::Token { contract_addr } => contract_addr.clone() };
             let p: Result<trio::ProtocolFeesResponse, _> = self.app.wrap().query_wasm_smart(&self.trio, &trio::QueryMsg::ProtocolFees { asset_id: Some(id.clone()), all_time: None });
@@ -170,6 +174,10 @@ impl TrioWorld {
                       _ => return Some(format!("ProtocolFees{{asset_id: {}}} disagrees with the pending ledger", id)) }
             match b { Ok(r) if r.fees.len() == 1 && r.fees[0].amount.u128() == burned[i] && r.fees[0].info == self.assets[i] => {}
                       _ => return Some(format!("BurnedFees{{asset_id: {}}} disagrees with the burned ledger", id)) }
+            // asked for the all-time counter of one asset (the code answers with the whole all-time list): the asset's entry must be its all-time amount
+            let a: Result<trio::ProtocolFeesResponse, _> = self.app.wrap().query_wasm_smart(&self.trio, &trio::QueryMsg::ProtocolFees { asset_id: Some(id.clone()), all_time: Some(true) });
+            match a { Ok(r) if r.fees.iter().any(|f| f.info == self.assets[i]) && r.fees.iter().filter(|f| f.info == self.assets[i]).all(|f| f.amount.u128() == alltime[i]) => {}
+                      _ => return Some(format!("ProtocolFees{{asset_id: {}, all_time: true}} disagrees with the all-time ledger", id)) }
         }
         None
     }
